@@ -290,7 +290,7 @@ ASAN_ENV = {"ASAN_OPTIONS": "detect_leaks=0:abort_on_error=0:exitcode=99",
             "UBSAN_OPTIONS": "print_stacktrace=1:halt_on_error=1:exitcode=98"}
 
 
-def run_pair(ctx, impl_exe, model_exe, cases, tag, timeout=600):
+def run_pair(ctx, impl_exe, model_exe, cases, tag, timeout=240):
     """write cases to a file, run both sides, return (impl_lines, model_lines, impl_log)"""
     d = ctx["workdir"]
     cf = os.path.join(d, "%s.cases" % tag)
@@ -311,7 +311,7 @@ def run_pair(ctx, impl_exe, model_exe, cases, tag, timeout=600):
         lm.pop()
     # a crashed implementation run leaves fewer lines: mark the first missing one
     while len(li) < len(cases):
-        li.append("CRASH(rc=%d)" % rc_i)
+        li.append("CRASH(rc=%d%s)" % (rc_i, ", hang: timeout" if rc_i == 124 else ""))
     while len(lm) < len(cases):
         lm.append("MODEL-CRASH(rc=%d)" % rc_m)
     return li, lm, (rc_i, out_i[-3000:], rc_m, out_m[-2000:])
